@@ -167,4 +167,77 @@ theorem savezLoad_casts :
 
 end Examples
 
+/-! ## the text export
+
+`savetxt` of a binary database writes **exactly one bit string of the database's length per row, in
+row order, followed by the fingerprint's name when names are requested**.  `Db.savetxtLines` (the
+function the driver runs against `savetxt`) is characterised completely. -/
+
+theorem bitstringOfRow_length (bits : Nat) (r : Row) : (bitstringOfRow bits r).length = bits := by
+  simp [bitstringOfRow]
+
+/-- position `j` of the bit string is set exactly when the row stores column `j` -/
+theorem bitstringOfRow_get (bits : Nat) (r : Row) (j : Nat) (hj : j < bits) :
+    (bitstringOfRow bits r)[j]'(by simpa [bitstringOfRow] using hj) = r.any (fun p => p.1 == j) := by
+  simp [bitstringOfRow]
+
+/-- one line per row (and per name): under the invariant, one line per fingerprint -/
+theorem savetxtLines_length (db : Db) (w : Bool) (hi : db.Inv) : (db.savetxtLines w).length = db.fpNum := by
+  have hn := hi.names_length
+  cases ha : db.array with
+  | none => simp [Db.savetxtLines, ha, Db.fpNum]
+  | some a =>
+    have : db.fpNames.length = a.length := by simpa [Db.fpNum, ha] using hn
+    simp [Db.savetxtLines, ha, Db.fpNum, this]
+
+/-- the `i`-th line is the line of the `i`-th row and the `i`-th name: row order is kept -/
+theorem savetxtLines_get (db : Db) (w : Bool) (a : List Row) (ha : db.array = some a) (i : Nat) (r : Row)
+    (nm : Option String) (hr : a[i]? = some r) (hn : db.fpNames[i]? = some nm) :
+    (db.savetxtLines w)[i]? = some (savetxtLine db.bits w r nm) := by
+  have hz : (a.zip db.fpNames)[i]? = some (r, nm) := List.getElem?_zip_eq_some.2 ⟨hr, hn⟩
+  simp only [Db.savetxtLines, ha, Option.getD_some, List.getElem?_map, hz, Option.map_some]
+
+/-- a line begins with the bit string of the database's length … -/
+theorem savetxtLine_bits (bits : Nat) (w : Bool) (r : Row) (nm : Option String) :
+    (savetxtLine bits w r nm).take bits = (bitstringOfRow bits r).map (fun b => if b then '1' else '0') := by
+  unfold savetxtLine
+  rw [List.take_append_of_le_length (by simp [bitstringOfRow])]
+  rw [List.take_of_length_le (by simp [bitstringOfRow])]
+
+/-- … which consists of the characters `0` and `1` only … -/
+theorem savetxtLine_bits_chars (bits : Nat) (w : Bool) (r : Row) (nm : Option String) :
+    ∀ c ∈ (savetxtLine bits w r nm).take bits, c = '0' ∨ c = '1' := by
+  rw [savetxtLine_bits]
+  intro c hc
+  obtain ⟨b, _, rfl⟩ := List.mem_map.1 hc
+  cases b <;> simp
+
+/-- … and is followed by nothing when names are not requested, by a blank and the name otherwise
+(`None` for a fingerprint without name) -/
+theorem savetxtLine_rest (bits : Nat) (w : Bool) (r : Row) (nm : Option String) :
+    (savetxtLine bits w r nm).drop bits = if w then ' ' :: (nm.getD "None").toList else [] := by
+  unfold savetxtLine
+  rw [List.drop_append_of_le_length (by simp [bitstringOfRow])]
+  rw [List.drop_of_length_le (by simp [bitstringOfRow])]
+  simp
+
+/-- length of a line without names: exactly the database's length -/
+theorem savetxtLine_length_nonames (bits : Nat) (r : Row) (nm : Option String) :
+    (savetxtLine bits false r nm).length = bits := by
+  simp [savetxtLine, bitstringOfRow]
+
+/-- the stored order of a row's cells is irrelevant to its line (what `savetxt` got wrong before the
+repair recorded under C08 in `known_findings.json`) -/
+theorem savetxtLine_perm (bits : Nat) (w : Bool) (r r' : Row) (nm : Option String) (h : r.Perm r') :
+    savetxtLine bits w r nm = savetxtLine bits w r' nm := by
+  unfold savetxtLine bitstringOfRow
+  congr 2
+  apply List.map_congr_left
+  intro j _
+  exact h.any_eq
+
+example : String.mk (savetxtLine 8 true [(5, 1), (1, 1)] (some "m_0")) = "01000100 m_0" ∧
+    String.mk (savetxtLine 8 false [(5, 1), (1, 1)] none) = "01000100" ∧
+    String.mk (savetxtLine 4 true [] none) = "0000 None" := by decide
+
 end E3fpVerif.Props.C08
